@@ -58,7 +58,8 @@ PROPS["C04"] = {
     "level": "proof",
     "theorems": ["C04_inserted_exactly_once", "C04_relative_order_stable", "C04_placed_between_origins", "C04_placed_right_of_origin",
                  "C04_placed_left_of_right_origin", "C04_deleted_never_visible_again",
-                 "C04_split_changes_no_unit", "C04_squash_changes_no_unit", "C04_split_then_squash_is_identity", "C04_squash_conditions_are_necessary"],
+                 "C04_split_changes_no_unit", "C04_squash_changes_no_unit", "C04_split_then_squash_is_identity", "C04_squash_conditions_are_necessary",
+                 "C04_block_integration_refines_unit_integration", "C04_block_splits_are_invisible", "C04_position_does_not_depend_on_the_blocking"],
     "theorem_kinds": {
         "C04_inserted_exactly_once": "unbounded, any list, any item",
         "C04_relative_order_stable": "unbounded (per replica: every later state)",
@@ -68,9 +69,9 @@ PROPS["C04"] = {
         "C04_squash_changes_no_unit": "unbounded (every pair of blocks satisfying the conditions of try_squash)",
         "C04_squash_conditions_are_necessary": "unbounded (no block at all has the concatenated unit view unless every condition holds)",
     },
-    "rule": HIST_RULE + "; C04 oracle on every state of every replica: each unit id occurs once in its list, and the relative order of every pair of visible units agrees with every earlier observation of that pair on ANY replica of the history; at the end of every history the unit-level view of every replica's full state (id, origin, right origin, parent where transmitted, content of every unit) equals the unit-level view of the updates as first emitted (block splits and squashes are invisible)",
+    "rule": HIST_RULE + "; C04 oracle on every state of every replica: each unit id occurs once in its list, and the relative order of every pair of visible units agrees with every earlier observation of that pair on ANY replica of the history; at the end of every history the unit-level view of every replica's full state (id, origin, right origin, parent where transmitted, content of every unit) equals the unit-level view of the updates as first emitted (block splits and squashes are invisible); editor sessions (stream 140): for every local insertion and every delivered single-item update the extracted block-level transcription of Item::integrate (runner YIB step), fed the replica's block sequence before the step, must place every unit where the implementation has it afterwards",
     "trusted_base": ["cross-replica agreement of the order (same order on every replica) is the tombstone-level convergence of C01: proved for the finite universes of Crdt/YataFinite.v, otherwise established by the correspondence only"],
-    "modelled_not_verified": ["block split / squash (units of one block are consecutive by construction of units_of_item; the implementation's splice is compared through the unit-expanded dump)"],
+    "modelled_not_verified": ["map entries at block level (a multi-unit entry block behaves differently from its units: yib_map_entry_multi_unit_refuted; entries made by the API have length 1; tested by vm_compute sweeps, no theorem)", "Item::trim (offset > 0): every caller passes 0; partial theorem"],
     "assumptions": [],
 }
 
@@ -88,7 +89,7 @@ PROPS["C01"] = {
                       "C01_generated_histories_are_well_formed": "unbounded (links wf_history to the executable generator)"},
     "rule": "delete sets (of undelivered messages, or ranges inside blocks / over holes / beyond the clock / for unknown clients) applied to the stores of seeded flat histories with out-of-order delivery: block lists (clock, length, kind) inside the transaction and the unapplied rest (Store::pending_ds, hook dump) must equal the result of the Coq transcription of apply_delete; " + HIST_RULE + "; implementation-only oracle at quiescence: all replicas expose the same content through the public read API (text diff with attributes, arrays, maps, XML tree with sorted attributes, nested types) and the same item order incl. tombstones",
     "trusted_base": [_MODEL_NOTE, "order convergence is proved for one sequence of unit insertions (the setting of YataFinite.v); deletions are handled by the separate order-insensitivity theorems; nested types and map chains reuse the same insertion function per parent / key"],
-    "modelled_not_verified": ["block-level integration (units of a block integrated atomically)", "BlockPicker order", "v2 encoding (the model consumes the v1 form of every update; v2 deliveries are checked by the implementation-only oracle)"],
+    "modelled_not_verified": ["block-level integration of map entries (sequences are proved to refine the unit level: yib_integrate_refines_units; map chains tested only)", "BlockPicker order (transcribed in Crdt/Integrate.v for the stash logic)", "v2 encoding (the model consumes the v1 form of every update; v2 deliveries are checked by the implementation-only oracle)"],
     "assumptions": ["gc off and cleanup_formatting off on all replicas of these histories (C15 covers gc)", "embeds / format values are JSON-representable (they travel as JSON text)"],
     "coq_timeout": 2400,
 }
